@@ -354,7 +354,7 @@ func c04PanicHead(s string) string {
 	var keep []string
 	keep = append(keep, lines[0])
 	for _, l := range lines[1:] {
-		if (strings.Contains(l, "basekick-labs/arc/internal") || strings.Contains(l, "arrow-go")) && !strings.Contains(l, "verif") && strings.Contains(l, "(") && !strings.HasPrefix(l, "\t") {
+		if (strings.Contains(l, "basekick-labs/arc/internal") || strings.Contains(l, "arrow-go") || strings.Contains(l, "msgpack/v6")) && !strings.Contains(l, "verif") && strings.Contains(l, "(") && !strings.HasPrefix(l, "\t") {
 			keep = append(keep, strings.TrimSpace(l))
 			if len(keep) >= 6 {
 				break
